@@ -99,6 +99,7 @@ func runC10(c *core.Ctx, crashes, deep bool) {
 	w.Observers = append(w.Observers, tr)
 	uni := scen.DefaultUniverse()
 	uni.BadReceiverPct = 15
+	uni.UnknownDestPct = 4
 	e.SeedTokens(uni, 3)
 	if deep {
 		A := w.Nodes[0]
@@ -159,7 +160,7 @@ func runC10(c *core.Ctx, crashes, deep bool) {
 			w.Stats.Inc("byz-" + firstTok(s.Mut))
 		}
 		pr := model.Pair{Src: cp.SourceChain, Dst: cp.DestinationChain}
-		accepted := r.OK() && world.CountEvents(r.Events, packettypes.EventTypeRecvCleanPacket) > 0
+		accepted := r.OK() // model-first: a successful MsgRecvCleanPacket is an accepted clean, whatever it emitted
 		if !accepted {
 			noTraceTibc(c, "C10", n, r, before, "MsgRecvCleanPacket")
 			return
